@@ -245,6 +245,7 @@ class Eval:
         self.ambient = frozenset()   # presence conditions under which the code being inlined runs
         self.site_conds = {}         # call site -> [ambient condition sets]
         self.site_terms = {}         # call site -> [call terms]
+        self.kernel_obligations = {}  # site of an overwriting in-place kernel -> (name, buffer before, value written)
 
     # ------------------------------------------------------------------ #
     def fresh_ctx(self):
@@ -639,14 +640,20 @@ class Eval:
             # the target's new value is the corresponding pure expression of the other arguments
             nm = t["fn"]["name"]
             ops = [self.operand(env, a, (cbi, None)) if i != ai else None for i, a in enumerate(t["args"])]
+
+            def over(v):
+                # the kernel overwrites a buffer that must ALREADY have the shape of the value (nalgebra asserts it): the pure
+                # expression forgets the buffer, so the obligation `shape(buffer) = shape(value)` is kept for R-SHAPES
+                self.kernel_obligations.setdefault((body.key, cbi, env.path), (nm, base, v))   # a reborrow chain asks twice: the innermost (first) answer has the buffer
+                return v
             if nm == "copy_from" and ai == 0 and len(ops) == 2:
-                return ops[1]
+                return over(ops[1])
             if nm == "tr_copy_from" and ai == 0 and len(ops) == 2:
-                return ("call", "nalgebra::Matrix::transpose", "nalgebra::Matrix", (ops[1],), (body.key, cbi, env.path))
+                return over(("call", "nalgebra::Matrix::transpose", "nalgebra::Matrix", (ops[1],), (body.key, cbi, env.path)))
             if nm == "mul_to" and ai == 2 and len(ops) == 3:
-                return ("call", "std::ops::Mul::mul", "nalgebra::Matrix", (ops[0], ops[1]), (body.key, cbi, env.path))
+                return over(("call", "std::ops::Mul::mul", "nalgebra::Matrix", (ops[0], ops[1]), (body.key, cbi, env.path)))
             if nm == "tr_mul_to" and ai == 2 and len(ops) == 3:
-                return ("call", "nalgebra::base::ops::tr_mul", "nalgebra::Matrix", (ops[0], ops[1]), (body.key, cbi, env.path))
+                return over(("call", "nalgebra::base::ops::tr_mul", "nalgebra::Matrix", (ops[0], ops[1]), (body.key, cbi, env.path)))
             # BLAS-style updates  y ← α·op(a)·op(b) + β·y  (nalgebra::base::blas): the pure expression, with the literal
             # factors 1 / 0 / −1 folded so that `y.gemm(1, a, b, −1)` is the same term as `a * b − y`
             site = (body.key, cbi, env.path)
@@ -665,7 +672,7 @@ class Eval:
                 else:
                     first = call("std::ops::Mul::mul", prod, alpha)
                 if cb_ == 0:
-                    return first if first is not None else call("std::ops::Mul::mul", prod, alpha)
+                    return over(first if first is not None else call("std::ops::Mul::mul", prod, alpha))
                 old = base if cb_ == 1 else (None if cb_ == -1 else call("std::ops::Mul::mul", base, beta))
                 if cb_ == -1:
                     if first is None:
@@ -697,7 +704,7 @@ class Eval:
                 inv = ("call", "nalgebra::linalg::inverse::try_inverse", "nalgebra::Matrix", (base,), site)
                 return ("payload", inv, "ok", "0")
             if ai == 2 and len(ops) == 3 and nm in ("add_to", "sub_to"):
-                return call("std::ops::Add::add" if nm == "add_to" else "std::ops::Sub::sub", ops[0], ops[1])
+                return over(call("std::ops::Add::add" if nm == "add_to" else "std::ops::Sub::sub", ops[0], ops[1]))
             return None
         if cb is None or key in self.opaque or cb.kind == "Closure" or key in self._active:
             return None
